@@ -632,6 +632,7 @@ func (x *Exec) simple(st *State, fr *Frame, in ssa.Instruction) bool {
 	case *ssa.IndexAddr:
 		xv := x.operand(st, fr, in.X)
 		iv := x.toIdx(st, x.operand(st, fr, in.Index))
+		st.trigger(iv)
 		switch xv.K {
 		case KSlice:
 			x.fault(st, fr, in, "index", and(m.le(m.idxLit(0), iv), m.lt(iv, xv.ln())))
@@ -1054,6 +1055,16 @@ func (x *Exec) makeInterface(st *State, v *Val, from types.Type, to types.Type) 
 	return r
 }
 
+
+// trUF: the trigger predicate for index terms of a sort.
+func (x *Exec) trUF(s Sort) string {
+	n := "Tr"
+	if s.isBV() {
+		n = fmt.Sprintf("TrB%d", s.bvWidth())
+	}
+	x.declUF(n, fmt.Sprintf("(declare-fun %s (%s) Bool)", n, s))
+	return n
+}
 
 func (x *Exec) declAddrUFs(m Mode) {
 	x.declUF("fieldaddr", "(declare-fun fieldaddr (Int Int) Int)")
